@@ -106,11 +106,19 @@ class FollowFTPFilter(BaseURLFilter):
             return True
 
 
+def _normalize_hostname_list(hostnames):
+    '''Return the names lower-cased and without the root dot.'''
+    if not hostnames:
+        return hostnames
+
+    return [hostname.rstrip('.').lower() for hostname in hostnames]
+
+
 class BackwardDomainFilter(BaseURLFilter):
     '''Return whether the hostname matches a list of hostname suffixes.'''
     def __init__(self, accepted=None, rejected=None):
-        self._accepted = accepted
-        self._rejected = rejected
+        self._accepted = _normalize_hostname_list(accepted)
+        self._rejected = _normalize_hostname_list(rejected)
 
     def test(self, url_info, url_table_record):
         test_domain = url_info.hostname
@@ -127,6 +135,9 @@ class BackwardDomainFilter(BaseURLFilter):
         if not test_domain:
             return False
 
+        # "example.com." is the same host as "example.com"
+        test_domain = test_domain.rstrip('.')
+
         for domain in domain_list:
             if test_domain.endswith(domain):
                 return True
@@ -135,11 +146,16 @@ class BackwardDomainFilter(BaseURLFilter):
 class HostnameFilter(BaseURLFilter):
     '''Return whether the hostname matches exactly in a list.'''
     def __init__(self, accepted=None, rejected=None):
-        self._accepted = accepted
-        self._rejected = rejected
+        self._accepted = _normalize_hostname_list(accepted)
+        self._rejected = _normalize_hostname_list(rejected)
 
     def test(self, url_info, url_table_record):
         test_domain = url_info.hostname
+
+        if test_domain:
+            # "example.com." is the same host as "example.com"
+            test_domain = test_domain.rstrip('.')
+
         if self._accepted and not test_domain in self._accepted:
             return False
 
